@@ -4,6 +4,7 @@ import (
 	"bytes"
 	"encoding/hex"
 	"encoding/json"
+	"flag"
 	"fmt"
 	"math/rand"
 	"os"
@@ -12,6 +13,9 @@ import (
 	"sort"
 	"strings"
 	"sync"
+	"time"
+
+	"github.com/thomasjungblut/go-sstables/simpledb"
 
 	"verif/internal/fw"
 	"verif/internal/strace"
@@ -26,18 +30,176 @@ func init() {
 	fw.Register(&fw.Prop{
 		ID: "C10",
 		Meta: func(tier string) fw.Meta {
-			n := 4
+			n := 4 + 20
 			if tier == "thorough" {
-				n = 60
+				n = 60 + 300
 			}
-			return fw.Meta{N: n, Level: "fault_enumeration", Chunk: 1, CaseTimeoutS: 1800, MinNT: 2, Workers: 4,
-				Rule:        "one case = one traced synchronous-WAL session (as in C02); from its distinct crash images up to 24 (quick) / 60 (thorough) level-1 images are drawn per phase bucket (open / close / flush / compaction / operations) plus the final image; for each recoverable one: R0 = read-all after an uninterrupted Open+Close; the same recovery is then run under strace on a fresh copy (fidelity: final replayed image == directory left) and after EVERY mutating system call of that Open/Close (plus all subsets of every unlink run of <= 4 files, sampled beyond = other directory listing orders) a level-2 image is materialised; a fresh Open on it must succeed and read exactly R0. In the thorough tier 3 level-2 images per level-1 image are traced again (depth 3). evaluations = level-2/3 images recovered; non-trivial = level-1 image whose recovery performs >= 5 mutations",
-				MinObs:      map[string]int64{"level1_images": 40, "level1_with_wal_replay": 10, "level1_with_pending_compaction": 3, "level2_images_recovered": 2000, "level2_listing_order_variants": 200},
+			return fw.Meta{N: n, Level: "fault_enumeration", Chunk: 1, CaseTimeoutS: 1800, MinNT: 10, Workers: 6,
+				Rule:        "one case = one traced synchronous-WAL session (as in C02); from its distinct crash images up to 24 (quick) / 60 (thorough) level-1 images are drawn per phase bucket (open / close / flush / compaction / operations) plus the final image; a further 20 (quick) / 300 (thorough) cases start from HAND-PLACED kill images (a process that ends without Close): WAL holding only deletes / only puts / both over 1..3 tables, a finished flagged compaction that was never reflected plus a non-empty WAL, and the same with some input files already removed; for each recoverable one: R0 = read-all after an uninterrupted Open+Close; the same recovery is then run under strace on a fresh copy (fidelity: final replayed image == directory left) and after EVERY mutating system call of that Open/Close (plus all subsets of every unlink run of <= 4 files, sampled beyond = other directory listing orders) a level-2 image is materialised; a fresh Open on it must succeed and read exactly R0. In the thorough tier 3 level-2 images per level-1 image are traced again (depth 3). evaluations = level-2/3 images recovered; non-trivial = level-1 image whose recovery performs >= 5 mutations",
+				MinObs:      map[string]int64{"level1_images": 40, "level1_with_wal_replay": 10, "level1_with_pending_compaction": 3, "level2_images_recovered": 2000, "level2_listing_order_variants": 200, "level1_crafted": 15},
 				Assumptions: []string{"kill -9 model as in C02", "level-1 images whose Open fails are C02's findings and are skipped here"},
 			}
 		},
-		Run: runC10,
+		Run: func(c *fw.Case) {
+			ns := 4
+			if c.Thorough() {
+				ns = 60
+			}
+			if c.Idx >= ns {
+				runC10Crafted(c, c.Idx-ns)
+				return
+			}
+			runC10(c)
+		},
 	})
+	fw.RegisterSub("c10craft", c10Craft)
+}
+
+// c10Craft builds a hand-placed level-1 image and then ends WITHOUT Close (os.Exit = what kill -9 leaves, all
+// completed system calls retained). Scenarios: 0 = WAL holding only deletes after a flush; 1 = WAL holding only
+// puts; 2 = WAL with puts and deletes over 2..4 flushed tables; 3 = a finished (flagged) but unreflected
+// compaction plus a non-empty WAL; 4 = as 3 with some input files already removed (kill inside the live reflection).
+func c10Craft(args []string) int {
+	fs := flag.NewFlagSet("c10craft", flag.ExitOnError)
+	dir := fs.String("dir", "", "")
+	scenario := fs.Int("scenario", 0, "")
+	seed := fs.Int64("seed", 1, "")
+	_ = fs.Parse(args)
+	r := rand.New(rand.NewSource(*seed))
+	db, err := simpledb.NewSimpleDB(*dir, simpledb.DisableCompactions(), simpledb.MemstoreSizeBytes(1<<30), simpledb.WriteBufferSizeBytes(64),
+		simpledb.CompactionFileThreshold(0), simpledb.CompactionMaxSizeBytes(1<<40))
+	if err == nil {
+		err = db.Open()
+	}
+	if err != nil {
+		fmt.Println("ERR", err)
+		return 3
+	}
+	key := func() string { return fmt.Sprintf("k%d", r.Intn(8)) }
+	put := func(n int) {
+		for i := 0; i < n; i++ {
+			_ = db.Put(key(), fmt.Sprintf("c%d-%d-%s", *scenario, r.Intn(100000), strings.Repeat("z", r.Intn(30))))
+		}
+	}
+	del := func(n int) {
+		for i := 0; i < n; i++ {
+			_ = db.Delete(key())
+		}
+	}
+	table := func() {
+		put(3 + r.Intn(6))
+		if r.Intn(2) == 0 {
+			del(1 + r.Intn(2))
+		}
+		_ = db.VerifForceRotate()
+		waitFlushIdle(60 * time.Second)
+	}
+	ntab := 1 + r.Intn(3)
+	for i := 0; i < ntab; i++ {
+		table()
+	}
+	switch *scenario {
+	case 0:
+		del(1 + r.Intn(4))
+	case 1:
+		put(1 + r.Intn(4))
+	case 2:
+		put(2 + r.Intn(4))
+		del(1 + r.Intn(3))
+		put(r.Intn(3))
+	case 3, 4:
+		table()
+		md, err := db.VerifExecuteCompactionOnly()
+		if err != nil || md == nil {
+			fmt.Println("ERR compaction", err)
+			return 3
+		}
+		if r.Intn(2) == 0 {
+			del(1 + r.Intn(3))
+		} else {
+			put(1 + r.Intn(3))
+		}
+		if *scenario == 4 {
+			// remove some files of the inputs, oldest input first, as the live reflection would have done when killed
+			nIn := 1 + r.Intn(len(md.SstablePaths))
+			for i := 0; i < nIn; i++ {
+				p := filepath.Join(*dir, md.SstablePaths[i])
+				ents, _ := os.ReadDir(p)
+				last := i == nIn-1
+				for j, e := range ents {
+					if last && j >= 1+r.Intn(len(ents)) {
+						break
+					}
+					_ = os.Remove(filepath.Join(p, e.Name()))
+				}
+				if !last {
+					_ = os.Remove(p)
+				}
+			}
+		}
+	}
+	fmt.Println("CRAFTED")
+	os.Exit(0) // no Close: this is the kill
+	return 0
+}
+
+func runC10Crafted(c *fw.Case, j int) {
+	work := c.Dir
+	dir := filepath.Join(work, "crafted")
+	_ = os.MkdirAll(dir, 0755)
+	scenario := j % 5
+	seed := fw.CaseSeed("C10-crafted", c.Seed, j)
+	c.HashAdd("crafted", scenario, seed)
+	lr := rand.New(rand.NewSource(seed ^ 0x77))
+	res := fw.RunSub("", 120, nil, work, "c10craft", "-dir", dir, "-scenario", fmt.Sprint(scenario), "-seed", fmt.Sprint(seed))
+	if res.TimedOut || !strings.Contains(string(res.Stdout), "CRAFTED") {
+		c.Inconclusive(fmt.Sprintf("crafting scenario %d failed (exit %d): %s %s", scenario, res.Exit, cutS(string(res.Stdout), 200), cutS(res.Stderr, 300)))
+		return
+	}
+	var keys []string
+	for i := 0; i < 8; i++ {
+		keys = append(keys, hex.EncodeToString([]byte(fmt.Sprintf("k%d", i))))
+	}
+	c.Obs("level1_images", 1)
+	c.Obs("level1_crafted", 1)
+	c.Obs(fmt.Sprintf("level1_crafted_scenario_%d", scenario), 1)
+	if scenario <= 2 {
+		c.Obs("level1_with_wal_replay", 1)
+	} else {
+		c.Obs("level1_with_pending_compaction", 1)
+	}
+	cp := dir + "-r0"
+	_ = copyDir(dir, cp)
+	out, _ := runRecover(work, cp, keys)
+	_ = os.RemoveAll(cp)
+	if out == nil || out.OpenErr != "" || out.GetErr != "" {
+		oe := "process died"
+		if out != nil {
+			oe = out.OpenErr + out.GetErr
+		}
+		c.Violate("recovery-crash/crafted-image-not-recoverable/"+errClass(oe, cp), "scenario %d seed %d: the uninterrupted recovery of a hand-placed kill image fails: %s", scenario, seed, oe)
+		return
+	}
+	agg := &c10Agg{verdicts: map[string]string{}, counts: map[string]int{}}
+	label := fmt.Sprintf("hand-placed level-1 image, scenario %d (%s) seed=%d", scenario, []string{"WAL with deletes only", "WAL with puts only", "WAL with puts and deletes", "flagged unreflected compaction + WAL", "flagged compaction, inputs half removed + WAL"}[scenario], seed)
+	m := c10Nested(c, work, dir, keys, out.Reads, agg, 2, lr, label)
+	c.Obs("level2_images_recovered", int64(agg.judged))
+	c.Obs("level2_listing_order_variants", int64(agg.variants))
+	var sigs []string
+	for s := range agg.verdicts {
+		sigs = append(sigs, s)
+	}
+	sort.Strings(sigs)
+	for _, s := range sigs {
+		c.Violate(s, "[%d images with this signature in this case]\n%s", agg.counts[s], agg.verdicts[s])
+	}
+	if m >= 5 {
+		c.Nontrivial()
+	}
+	c.SetUnits(int64(max(agg.judged, 1)), 1)
+	if j%5 == 0 {
+		c.Sample(map[string]any{"crafted": label, "recovery_mutations": m, "level2_images_recovered": agg.judged})
+	}
 }
 
 func copyDir(src, dst string) error {
